@@ -127,7 +127,7 @@ def strat_fb(draw, tier):
     gulp = draw(st.one_of(st.integers(1, N + 5), st.integers(1, max(2, N // 3)), st.integers(1, 2 * md + 1)))
     return {"layout": lay, "nbins": nbins, "nints": nints, "nbands": nbands, "ratio": ratio, "accel": accel,
             "tsamp": draw(st.sampled_from([2.0**-10, 2.0**-10, 64e-6, 1e-3, 0.000327])),
-            "md_target": md, "gulp": gulp, "fch1": draw(st.sampled_from([1400.0, 800.0])),
+            "md_target": md, "gulp": gulp, "fch1": draw(st.sampled_from([1400.0, 800.0])), "prior": draw(vs.prior_use(N)),
             "foff": -draw(st.sampled_from([1.0, 4.0, 10.0]))}
 
 
@@ -150,7 +150,7 @@ def check_fb(case, ctx):
     period = case["ratio"] * tsamp
     accel = case["accel"]
     dm = dm_for(case["md_target"], case["fch1"], case["foff"], nchans, tsamp)
-    rd = FilReader(paths)
+    rd = vs.apply_prior_use(FilReader(paths), case.get("prior"))
     delays = np.asarray(rd.header.get_dmdelays(dm)).reshape(-1).astype(np.int64)
     md = int(delays.max())
     if delays.min() < 0 or md >= N // 2:
